@@ -11,6 +11,11 @@ R03.6 header-option-reaches-SFile.write: the user header reaches SFile.write on 
 text-chunk-native: a text handle in any state left by Recfile.open (created or reopened) converts the chunk to native
 byte order before Records::Write.
 
+R03.3f reserved-entry-selected-by-name-equality: on reopening a file the handle's row count / dtype / delimiter come from the
+header entries whose names EQUAL the reserved names (never a substring / prefix / suffix relation that a user entry can satisfy);
+R03.6 append-option-reaches-every-writing-path: every normal return of sfile.write opens the SFile itself or re-dispatches with
+the caller's append option passed on.
+
 R03.1b decides "the C++ constructor demands a dtype for mode m" by constant propagation through Records::Records and the
 helpers it calls (mode = the literal, dtype = NULL, everything else unknown: flat constant lattice joined at merges), so the
 condition may be spelled over the mode string, over action bits derived from it by a helper, with early returns ...; R03.2
@@ -47,7 +52,9 @@ MANIFEST = dict(
          "(5) seek-to-end dominates every output call reachable from Records::Write; (6) append=False selects mode 'w'; "
          "(7) on every path of sfile.write the header handed to SFile.write is the caller's header= option; (8) for every state a "
          "text handle can be in after Recfile.open, every path of Recfile.write converts the chunk to native byte order before "
-         "Records::Write (nothing below Records::Write swaps bytes).",
+         "Records::Write (nothing below Records::Write swaps bytes); (9) on reopening a file, the row count an append adds to, the dtype "
+         "a chunk is compared with and the delimiter are taken from the header entries selected by equality with the reserved "
+         "names, for every user header; (10) no normal return of sfile.write loses the caller's append option.",
     note="Not decided: byte-level equality of the concatenation, libc/file-system semantics, numpy dtype comparison "
          "semantics. Trusted: CPython ast, clang 14 AST, networkx dominators, SWIG naming convention, LP64.",
     technique="static analysis: CFG dominance / def-use, path-sensitive symbolic execution with helper inlining over Python ast, "
